@@ -155,6 +155,35 @@ CHECKS = {
             "base factor 1, 219 compound spellings, all __all__ names, "
             "quantity distribution wrappers.",
             "57 non-compositional spellings skipped in the compound check."),
+    "C14": ("exploration",
+            "environment-answer enumeration: every script of <=3 uniforms "
+            "over an extreme/branch-reaching alphabet delivered by a scripted "
+            "StreamInterface to every sampler; twin/interleaving/re-pointing "
+            "experiments on counting streams; constructor domain table",
+            "envmc",
+            "42 (class, parameter) cases reaching every sampler branch x 399 "
+            "uniform scripts each (0.0, 2^-1074, 2^-53, .25, .5, .75, "
+            "1-2^-53): no exception, value in the support, twin instance "
+            "identical in value and consumption; pairwise interleaving with 6 "
+            "partner instances; re-pointing after 0..3 draws; all parameter "
+            "tuples over a 12-value alphabet vs the documented domains.",
+            "Known findings (28, in known_findings.json): samplers that raise "
+            "for a uniform of exactly 0.0 / an underflowing product / the "
+            "polar-method pair (0.5,0.5); Geometric/NegBinomial p in {0,1}. "
+            "Each is keyed by class + exception + raising source line."),
+    "C18": ("model_checking",
+            "explicit-state BFS over parameter trees under a real DSOLModel "
+            "(reference tree = state), exhaustive set-value sequences per "
+            "class, exhaustive constructor table",
+            "seqmc",
+            "E2: all trees reachable in <=3 (thorough 4) create/remove/"
+            "model-set ops over keys {a,b,c} x priorities {1,2} x kinds "
+            "{int,map} in maps up to depth 2, with full observation after "
+            "every op; E1: all set-value sequences of length 3 (4) over "
+            "per-class alphabets x read-only x {object, model, nested}; E3: "
+            "131 constructor cases (a rejected constructor leaves the parent "
+            "unchanged).",
+            "Removing an absent key is unspecified; tree depth bounded."),
 }
 
 NOT_YET = {}
